@@ -98,6 +98,7 @@ def go_test(ctx, pkg, run, env, timeout=1800, tags="verif", race=False):
     e = dict(os.environ)
     e.update(GOENV)
     e.update({k: str(v) for k, v in env.items()})
+    e["TMPDIR"] = ctx.sub("gotmp")      # t.TempDir() of a driver that dies would otherwise stay behind in /tmp
     if race:
         e["CGO_ENABLED"] = "1"
     cmd = [GO, "test", "-count=1", "-tags", tags, "-timeout", "%ds" % timeout, "-run", "^%s$" % run, "./%s/" % pkg]
